@@ -20,8 +20,9 @@ CLAIMED = {
                 "at which every constraint's comparison holds stays inside the box, given forms related to their constraints as from_constraint guarantees; index errors are panics (rule R54) about which nothing is claimed. "
                 "The two ends are under contract as well (U07.pub): from_domain builds a box that contains every assignment inside the declared domains, and apply_to_domain publishes for every variable a domain that contains every value of its declared domain lying in the inferred range "
                 "(integer ends rounded within the tolerance and cast with saturation must bracket every integer of the interval; reals copied; non-negative reals clipped at 0), leaving the key set unchanged. "
-                "NOT decided deductively: the glue (analyze_with_options, the statements before the loop that build forms and dependencies: iterator chains), and everything that depends on floating-point rounding (floats are exact reals in the proofs): these are covered only by a BOUNDED search over "
-                "the whole real analyser (18 systems x 3 domains x 3 step limits). That search exposes one KNOWN FINDING (recorded, not repaired): real bounds inexact in floating point are published without outward rounding. "
+                "The forms handed to the loop are built by mapping from_constraint over the constraints in order (U07.pre, a statement slice), and a tiling guard keeps every other top-level statement of propagate_affine_constraints listed. "
+                "NOT decided deductively: the glue (analyze_with_options; the dependency table and the initial queue, which decide which constraints are revisited but not what is derived), and everything that depends on floating-point rounding (floats are exact reals in the proofs): these are covered only by a BOUNDED search over "
+                "the whole real analyser (19 systems x 3 domains x 3 step limits). That search exposes one KNOWN FINDING (recorded, not repaired): real bounds inexact in floating point are published without outward rounding. "
                 "Proof level because the statement is a for-all over reals and infinities that no grid of tests covers.",
         "note": "Trusted: prelude/f64_layer.rs (f64 treated as exact extended reals, IEEE special-value tables). Rounding error of finite arithmetic is out of reach and said so.",
         "technique": "Verus contracts (requires/ensures + ghost lemmas, structural induction for bounds_of) woven into functions extracted from bounds.rs on every run; bounded executable-postcondition search for the assumed arms",
@@ -63,14 +64,20 @@ CLAIMED["C19"] = {
 }
 
 CLAIMED["C13"] = {
-    "text": "Row-level facts of the standard-form conversion, proved for all real vectors (Verus): EqualityConstraint::new yields a non-negative right-hand side and a row with exactly the same solutions; "
-            "normalize_constraint turns a <= / >= row into an equality with ONE new column placed after all structural columns so that the equality holds for x extended by s = x[n] iff the inequality "
-            "holds with slack / surplus s, and rejects strict comparisons; ensure_size pads without changing the row's value; optimal_value maps the tableau value back through the sign flip with the offset kept in the user's frame. "
-            "The whole-model statement (bound rows, free-variable split with positional column bookkeeping in to_standard_form) is NOT decided: that function is built from iterator chains over IndexMap that neither back end takes; "
-            "remove_many, which it relies on, is checked by a BOUNDED Kani harness only.",
-    "note": "Trusted: prelude/f64_layer.rs (exact reals on finite floats), prelude/std_stubs.rs. Not decided: to_standard_form as a whole (column layout across free-variable splits, bound rows).",
-    "technique": "Verus contracts with ghost dot-product lemmas on extracted EqualityConstraint / normalize_constraint / optimal_value; Kani bounded harness for remove_many",
-    "design_ref": "DESIGN.md §5 C13",
+    "text": "to_standard_form is proved slice by slice (Verus, statement slices of the real function lifted mechanically; a tiling guard checks on every run that EVERY top-level statement of the function "
+            "belongs to one of the slices, in order, or is one of five listed statements: into_parts, the counter record, the kind check and its early return, the final constructor call). "
+            "Bound rows (U13.bnd): for every assignment that respects the sign restriction of the non-negative variables, the added rows hold exactly when every variable lies in its declared range; added rows are unit rows with finite right-hand sides. "
+            "Free list (U13.free): exactly the positions of kind Real, increasing. Appending half of the split (U13.split): every row and the objective get the pair (c, -c) per free variable in list order, names / non-negative domain entries / the column counter follow; "
+            "the new row's value is the old value plus c_f * (z_p - z_m) per free variable. Removing half (U13.drop, with remove_many proved for every length in U13.rmv): rows, objective and names lose exactly the listed positions in order, the domain loses exactly those entries, "
+            "and a row evaluates the same on an assignment that is zero at the removed positions. Row theorem (ghost lemma over these contracts): the final row at the compacted assignment equals the ORIGINAL row at the assignment in which each split variable is the difference of its two parts. "
+            "Normalisation loop (U13.norm): every row becomes an equality with non-negative right-hand side, inequality i gets its OWN column n0 + (number of inequalities before i), all rows are padded to the final width, strict rows are rejected; per row (U13.eq) the equality holds iff the source row holds with that slack / surplus. "
+            "Objective (U13.obj): max is recorded as min of the negated row with the flip flag, the offset is handed over unchanged; optimal_value (U13.flip) maps the tableau value back. "
+            "On top, a BOUNDED differential search (U13.std) runs the whole function against the microlp path on 2-variable LPs, and a BOUNDED Kani harness (U13.rm) re-checks remove_many for short vectors.",
+    "note": "Trusted: prelude/f64_layer.rs (exact reals on finite floats), prelude/std_stubs.rs, prelude/smap.rs (IndexMap), rule catalogue R0-R59 (std definitions of the iterator chains). Preconditions, not proved: declared ranges respect the type invariant "
+            "(NonNegativeReal starts at >= 0: enforced by the language front end, not by the builder / LinearModel API), row widths equal the number of variables (C08), counters fit usize. Not mechanised: the sequential composition of the slices (read off the source, guarded by the tiling check), "
+            "the existence of the extended assignment for a given original / standard point, generated names ($p, $m, $sl_, $su_) differing from existing names.",
+    "technique": "Verus contracts on mechanically extracted statement slices of to_standard_form and on remove_many / normalize_constraint / EqualityConstraint / optimal_value, ghost dot-product lemmas, tiling guard; bounded differential search and bounded Kani harness as additional stand-ins",
+    "design_ref": "DESIGN.md §5 C13, §11.11",
 }
 
 CLAIMED["C01"] = {
